@@ -31,12 +31,28 @@ theorem allTrusted_setBlob (hash : Bytes → Digest) (sz : Digest → Nat) (k : 
   · subst hd; rw [setBlob_same]; exact hv
   · rw [setBlob_other _ _ _ _ hd]; exact h d'
 
-/-- the size discipline of an operation: `Put(d, r, size)` is called with the size `sz d`; `Chunked` is excluded
-    (finding F10).  `Import` and `Resolve` compute digest and size from the same bytes, so they obey the
-    discipline by themselves as soon as `sz (hash b) = b.length`. -/
-def Disciplined (sz : Digest → Nat) : Op → Prop
+/-- the discipline of `Resolve(name)` on the disk `k`: the manifest bytes it is about to read have the length `sz`
+    assigns to their digest (it stores them with `PutBytes(hash data, data)`).  Only THESE bytes are constrained — no
+    global assumption that the digest determines the length (review B.1). -/
+def ResolveDisc (hash : Bytes → Digest) (sz : Digest → Nat) (k : Disk) (name : Bytes) : Prop :=
+  ∀ want data, nameToPath (splitNameDigest name).1 = some want →
+    manGet k.mans (manifestPathOf k.mans want) = some data → sz (hash data) = data.length
+
+/-- the size discipline of an operation on the disk `k`: `Put(d, r, size)` is called with the size `sz d`; `Resolve`
+    (also the one fired inside `linkR`) reads a manifest whose length is the one `sz` gives its digest; `Chunked` is
+    excluded (finding F10).  `Import` needs no discipline for trust (it renames a complete file). -/
+def Disciplined (hash : Bytes → Digest) (sz : Digest → Nat) (k : Disk) : Op → Prop
   | .put d size _ => size = sz d
   | .chunk .. => False
+  | .resolve name => ResolveDisc hash sz k name
+  | .linkR name _ => ResolveDisc hash sz k name
+  | _ => True
+
+/-- what PERSISTENCE of stored blobs needs on top (`strong` histories): no negative-size `Put` (finding F29), and an
+    `Import` stores content whose length is the one `sz` gives its digest -/
+def DisciplinedP (hash : Bytes → Digest) (sz : Digest → Nat) : Op → Prop
+  | .putNeg .. => False
+  | .importB _ s => sz (hash s.data) = s.data.length
   | _ => True
 
 theorem put_allTrusted (hash : Bytes → Digest) (sz : Digest → Nat) (k : Disk) (d : Digest) (s : Script)
@@ -45,19 +61,35 @@ theorem put_allTrusted (hash : Bytes → Digest) (sz : Digest → Nat) (k : Disk
   exact allTrusted_setBlob hash sz k d _ h
     (single_writer_crash_safe hash d (sz d) s (k.blob d) (h d) _ (cut_full _))
 
-theorem resolve_allTrusted (hash : Bytes → Digest) (sz : Digest → Nat) (hsz : ∀ b, sz (hash b) = b.length)
-    (k : Disk) (name : Bytes) (h : AllTrusted hash sz k) : AllTrusted hash sz (resolve hash k name).1 := by
-  simp only [resolve]
-  split
-  · split <;> exact h
-  · split
-    · exact h
-    · split
-      · exact h
-      · next data _ =>
-        have := put_allTrusted hash sz k (hash data) ⟨[data], .eof⟩ h
-        rw [hsz data] at this
-        split <;> exact this
+/-- `Resolve` is one of: nothing happens to the blobs, or the `PutBytes` of the manifest bytes `data` it read -/
+theorem resolve_blob_cases (hash : Bytes → Digest) (k : Disk) (name : Bytes) :
+    (resolve hash k name).1 = k ∨
+    ∃ want data, nameToPath (splitNameDigest name).1 = some want ∧
+      manGet k.mans (manifestPathOf k.mans want) = some data ∧
+      (resolve hash k name).1 = (put hash k (hash data) data.length ⟨[data], .eof⟩).1 := by
+  unfold resolve
+  simp only
+  by_cases hnd : (splitNameDigest name).2 ≠ []
+  · rw [if_pos hnd]; left; split <;> rfl
+  · rw [if_neg hnd]
+    cases hp : nameToPath (splitNameDigest name).1 with
+    | none => left; rfl
+    | some want =>
+      simp only
+      cases hm : manGet k.mans (manifestPathOf k.mans want) with
+      | none => left; rfl
+      | some data =>
+        right
+        refine ⟨want, data, rfl, hm, ?_⟩
+        simp only
+        split <;> rfl
+
+theorem resolve_allTrusted (hash : Bytes → Digest) (sz : Digest → Nat) (k : Disk) (name : Bytes)
+    (hd : ResolveDisc hash sz k name) (h : AllTrusted hash sz k) : AllTrusted hash sz (resolve hash k name).1 := by
+  rcases resolve_blob_cases hash k name with h1 | ⟨want, data, hp, hm, h1⟩
+  · rw [h1]; exact h
+  · rw [h1, ← hd want data hp hm]
+    exact put_allTrusted hash sz k (hash data) ⟨[data], .eof⟩ h
 
 theorem importB_allTrusted (hash : Bytes → Digest) (sz : Digest → Nat) (k : Disk) (n : Nat) (s : Script)
     (h : AllTrusted hash sz k) : AllTrusted hash sz (importB hash k n s).1 := by
@@ -70,8 +102,8 @@ theorem importB_allTrusted (hash : Bytes → Digest) (sz : Digest → Nat) (k : 
   · exact h
 
 /-- one complete, disciplined operation keeps every blob trusted -/
-theorem stepOp_allTrusted (hash : Bytes → Digest) (sz : Digest → Nat) (hsz : ∀ b, sz (hash b) = b.length)
-    (fixed zc : Bool) (k : Disk) (op : Op) (hd : Disciplined sz op) (h : AllTrusted hash sz k) :
+theorem stepOp_allTrusted (hash : Bytes → Digest) (sz : Digest → Nat)
+    (fixed zc : Bool) (k : Disk) (op : Op) (hd : Disciplined hash sz k op) (h : AllTrusted hash sz k) :
     AllTrusted hash sz (stepOp hash fixed zc k op).1 := by
   cases op with
   | put d size s =>
@@ -89,7 +121,7 @@ theorem stepOp_allTrusted (hash : Bytes → Digest) (sz : Digest → Nat) (hsz :
     by_cases hfire : linkRFires hash fixed zc k name d = true
     · simp only [stepOp, hfire, if_true]
       rw [linkZ_blob_eq]
-      exact resolve_allTrusted hash sz hsz k name h d'
+      exact resolve_allTrusted hash sz k name hd h d'
     · simp only [stepOp, hfire, Bool.false_eq_true, if_false]
       rw [linkZ_blob_eq]; exact h d'
   | unlink name =>
@@ -97,7 +129,7 @@ theorem stepOp_allTrusted (hash : Bytes → Digest) (sz : Digest → Nat) (hsz :
     split
     · exact h
     · split <;> exact h
-  | resolve name => exact resolve_allTrusted hash sz hsz k name h
+  | resolve name => exact resolve_allTrusted hash sz k name hd h
   | chunk d size a b cd s => cases hd
   | putNeg d s =>
     simp only [stepOp, putNeg]
@@ -114,64 +146,70 @@ theorem stepOp_allTrusted (hash : Bytes → Digest) (sz : Digest → Nat) (hsz :
     temp + rename with the zero-length refusal).  `putCut` / `importCut`: a `Put` / `Import` whose process died at
     any crash cut of its effects on the blob file.  `resolveCut`: `Resolve` died inside the `PutBytes` of the manifest
     bytes it had read.  `linkCut`: `Link` died at any cut of its effects on the manifest file (`linkFileEffs`).
-    `Unlink` and `Get` have no intermediate states. -/
-inductive CrashStep (hash : Bytes → Digest) (sz : Digest → Nat) : Disk → Disk → Prop
-  | op (k : Disk) (o : Op) : Disciplined sz o → CrashStep hash sz k (stepOp hash true true k o).1
+    `Unlink` and `Get` have no intermediate states.  `strong = true` adds what persistence of stored blobs needs
+    (`DisciplinedP`); the trust theorem holds for either value. -/
+inductive CrashStep (hash : Bytes → Digest) (sz : Digest → Nat) (strong : Bool) : Disk → Disk → Prop
+  | op (k : Disk) (o : Op) : Disciplined hash sz k o → (strong = true → DisciplinedP hash sz o) →
+      CrashStep hash sz strong k (stepOp hash true true k o).1
   | putCut (k : Disk) (d : Digest) (s : Script) (p : List Eff) :
       Cut (copyNamedEffs hash (k.blob d) d (sz d) s).1 p →
-      CrashStep hash sz k (k.setBlob d (run p (k.blob d)))
+      CrashStep hash sz strong k (k.setBlob d (run p (k.blob d)))
   | importCut (k : Disk) (n : Nat) (s : Script) (d : Digest) (es p : List Eff) :
-      (importEffs hash n s).1 = some (d, es) → Cut es p →
-      CrashStep hash sz k (k.setBlob d (run p (k.blob d)))
+      (importEffs hash n s).1 = some (d, es) → Cut es p → (strong = true → sz (hash s.data) = s.data.length) →
+      CrashStep hash sz strong k (k.setBlob d (run p (k.blob d)))
   | resolveCut (k : Disk) (path : MPath) (data : Bytes) (p : List Eff) :
-      manGet k.mans path = some data →
+      manGet k.mans path = some data → sz (hash data) = data.length →
       Cut (copyNamedEffs hash (k.blob (hash data)) (hash data) data.length ⟨[data], .eof⟩).1 p →
-      CrashStep hash sz k (k.setBlob (hash data) (run p (k.blob (hash data))))
+      CrashStep hash sz strong k (k.setBlob (hash data) (run p (k.blob (hash data))))
   | linkCut (k : Disk) (name : Bytes) (d : Digest) (want : MPath) (q : List Eff) :
       nameToPath name = some want →
       Cut (linkFileEffs hash true (manGet k.mans (manifestPathOf k.mans want)) (k.blob d) d).1 q →
-      CrashStep hash sz k { k with mans := manSet k.mans (manifestPathOf k.mans want)
+      CrashStep hash sz strong k { k with mans := manSet k.mans (manifestPathOf k.mans want)
                                             (run q (manGet k.mans (manifestPathOf k.mans want))) }
 
 /-- histories: any number of steps, each a complete operation or a crashed one -/
-inductive CrashHist (hash : Bytes → Digest) (sz : Digest → Nat) : Disk → Disk → Prop
-  | refl (k : Disk) : CrashHist hash sz k k
-  | step (k k' k'' : Disk) : CrashHist hash sz k k' → CrashStep hash sz k' k'' → CrashHist hash sz k k''
+inductive CrashHist (hash : Bytes → Digest) (sz : Digest → Nat) (strong : Bool) : Disk → Disk → Prop
+  | refl (k : Disk) : CrashHist hash sz strong k k
+  | step (k k' k'' : Disk) : CrashHist hash sz strong k k' → CrashStep hash sz strong k' k'' →
+      CrashHist hash sz strong k k''
 
-theorem crashStep_allTrusted (hash : Bytes → Digest) (sz : Digest → Nat) (hsz : ∀ b, sz (hash b) = b.length)
-    (k k' : Disk) (hs : CrashStep hash sz k k') (h : AllTrusted hash sz k) : AllTrusted hash sz k' := by
+theorem crashStep_allTrusted (hash : Bytes → Digest) (sz : Digest → Nat) (strong : Bool)
+    (k k' : Disk) (hs : CrashStep hash sz strong k k') (h : AllTrusted hash sz k) : AllTrusted hash sz k' := by
   cases hs with
-  | op o hd => exact stepOp_allTrusted hash sz hsz true true k o hd h
+  | op o hd _ => exact stepOp_allTrusted hash sz true true k o hd h
   | putCut d s p hc =>
     exact allTrusted_setBlob hash sz k d _ h (single_writer_crash_safe hash d (sz d) s (k.blob d) (h d) p hc)
-  | importCut n s d es p hi hc =>
+  | importCut n s d es p hi hc _ =>
     exact allTrusted_setBlob hash sz k d _ h (import_crash_safe hash n s (k.blob d) d es hi p hc (sz d) (h d))
-  | resolveCut path data p _ hc =>
+  | resolveCut path data p _ hsz hc =>
     apply allTrusted_setBlob hash sz k (hash data) _ h
     have h1 := h (hash data)
-    rw [hsz data] at h1 ⊢
+    rw [hsz] at h1 ⊢
     exact single_writer_crash_safe hash (hash data) data.length ⟨[data], .eof⟩ (k.blob (hash data)) h1 p hc
   | linkCut name d want q _ _ => exact h
 
-/-- **Every history with crashes, whole disk.**  Let `sz` give the length of the content behind every digest
-    (`sz (hash b) = b.length`: the discipline "a blob is stored under the size of what hashes to it"; it is what
-    rules out a caller lying about the size of an existing digest).  From any disk whose blob files are trusted — in
-    particular the empty one — after ANY sequence of complete disciplined operations and crashed Put / Import /
-    Resolve / Link (each cut at any effect, the last write at any byte, the leftovers being what the next step
-    starts from), EVERY blob file is trusted under its size. -/
-theorem crash_history_all_trusted (hash : Bytes → Digest) (sz : Digest → Nat)
-    (hsz : ∀ b, sz (hash b) = b.length) (k k' : Disk) (hr : CrashHist hash sz k k')
+/-- **Every history with crashes, whole disk.**  Let `sz` be the size every digest is stored under (the discipline "a
+    blob is always stored under one size": `Put(d, …)` is called with `sz d`, and the manifests `Resolve` re-stores have
+    the length `sz` gives their digest — constraints on the bytes that actually OCCUR, not on `hash` as a whole; it is
+    what rules out a caller lying about the size of an existing digest, see `size_lie_after_crash_present_wrong_content`).
+    From any disk whose blob files are trusted — in particular the empty one, `allTrusted_empty` — after ANY sequence
+    of complete disciplined operations and crashed Put / Import / Resolve / Link (each cut at any effect, the last
+    write at any byte, the leftovers being what the next step starts from), EVERY blob file is trusted under its
+    size. -/
+theorem crash_history_all_trusted (hash : Bytes → Digest) (sz : Digest → Nat) (strong : Bool)
+    (k k' : Disk) (hr : CrashHist hash sz strong k k')
     (h0 : AllTrusted hash sz k) : AllTrusted hash sz k' := by
   induction hr with
   | refl => exact h0
-  | step k' k'' _ hs ih => exact crashStep_allTrusted hash sz hsz k' k'' hs ih
+  | step k' k'' _ hs ih => exact crashStep_allTrusted hash sz strong k' k'' hs ih
 
 /-- … so whatever `Get` reports present with the digest's size, at any moment of any such history from the
-    empty disk, has the right content. -/
-theorem crash_history_get_trusted (hash : Bytes → Digest) (sz : Digest → Nat)
-    (hsz : ∀ b, sz (hash b) = b.length) (k : Disk) (hr : CrashHist hash sz Disk.empty k) (d : Digest)
+    empty disk, has the right content.  (`Get` alone is not the test: a crashed partial file is reported present under
+    ITS length; the property speaks of "the size it was stored under".) -/
+theorem crash_history_get_trusted (hash : Bytes → Digest) (sz : Digest → Nat) (strong : Bool)
+    (k : Disk) (hr : CrashHist hash sz strong Disk.empty k) (d : Digest)
     (hg : getB k d = .entry (sz d)) : ∃ f, k.blob d = some f ∧ f.length = sz d ∧ hash f = d := by
-  have hall := crash_history_all_trusted hash sz hsz Disk.empty k hr (allTrusted_empty hash sz) d
+  have hall := crash_history_all_trusted hash sz strong Disk.empty k hr (allTrusted_empty hash sz) d
   unfold getB at hg
   cases hb : k.blob d with
   | none => simp [hb] at hg
@@ -183,18 +221,139 @@ theorem crash_history_get_trusted (hash : Bytes → Digest) (sz : Digest → Nat
       simp only [Out.entry.injEq] at hg
       exact ⟨f, rfl, hg, hall f hb hz hg⟩
 
-/-- Non-vacuity: with the identity as hash and `sz = length` the discipline holds, and the following history is a
-    `CrashHist` from the empty disk — a Put of `[1,2,3,4]` killed after its first chunk (file `[1,2]`), then an
-    Import of the same content killed before its rename (file still `[1,2]`), then a complete Put that repairs it —
-    ending with `Get` reporting 4 bytes. -/
-example :
+/-! ### a successful store STAYS retrievable (clause 2 as an invariant; review E.1) -/
+
+/-- the blob `d` is stored: `Get` reports it present with its size and the content hashes to `d` -/
+def Present (hash : Bytes → Digest) (sz : Digest → Nat) (k : Disk) (d : Digest) : Prop :=
+  ∃ f, k.blob d = some f ∧ f.length = sz d ∧ f.length ≠ 0 ∧ hash f = d
+
+theorem present_get (hash : Bytes → Digest) (sz : Digest → Nat) (k : Disk) (d : Digest)
+    (h : Present hash sz k d) : getB k d = .entry (sz d) := by
+  obtain ⟨f, hf, hl, hz, _⟩ := h
+  have hz' : sz d ≠ 0 := by rw [← hl]; exact hz
+  simp [getB, hf, hl, hz']
+
+theorem present_setBlob_other (hash : Bytes → Digest) (sz : Digest → Nat) (k : Disk) (d d' : Digest) (v : FileSt)
+    (hne : d' ≠ d) (h : Present hash sz k d') : Present hash sz (k.setBlob d v) d' := by
+  obtain ⟨f, hf, r⟩ := h
+  exact ⟨f, by rw [setBlob_other _ _ _ _ hne]; exact hf, r⟩
+
+/-- a (possibly crashed) `Put` under the digest's size never touches a stored blob: a full-size file is not reopened -/
+theorem putCut_present (hash : Bytes → Digest) (sz : Digest → Nat) (k : Disk) (d d' : Digest) (s : Script)
+    (p : List Eff) (hc : Cut (copyNamedEffs hash (k.blob d) d (sz d) s).1 p) (h : Present hash sz k d') :
+    Present hash sz (k.setBlob d (run p (k.blob d))) d' := by
+  by_cases hne : d' = d
+  · subst hne
+    obtain ⟨f, hf, hl, hz, hh⟩ := h
+    have he : (copyNamedEffs hash (k.blob d') d' (sz d') s).1 = [] := by
+      unfold copyNamedEffs; simp [hf, hl]
+    rw [he] at hc
+    cases hc
+    exact ⟨f, by simp [setBlob_same, hf], hl, hz, hh⟩
+  · exact present_setBlob_other hash sz k d d' _ hne h
+
+theorem importCut_present (hash : Bytes → Digest) (sz : Digest → Nat) (k : Disk) (n : Nat) (s : Script)
+    (d d' : Digest) (es p : List Eff) (hi : (importEffs hash n s).1 = some (d, es)) (hc : Cut es p)
+    (hsz : sz (hash s.data) = s.data.length) (h : Present hash sz k d') :
+    Present hash sz (k.setBlob d (run p (k.blob d))) d' := by
+  by_cases hne : d' = d
+  · subst hne
+    obtain ⟨f, hf, hl, hz, hh⟩ := h
+    unfold importEffs at hi
+    split at hi
+    · cases hi
+    · split at hi
+      · cases hi
+      · simp only [Option.some.injEq, Prod.mk.injEq] at hi
+        obtain ⟨rfl, rfl⟩ := hi
+        cases hc with
+        | stop => exact ⟨f, by simp [setBlob_same, hf], hl, hz, hh⟩
+        | next _ _ p' hc' =>
+          cases hc'
+          refine ⟨s.data, by simp [setBlob_same, run, applyEff], hsz.symm, ?_, rfl⟩
+          rw [← hsz, ← hl]; exact hz
+  · exact present_setBlob_other hash sz k d d' _ hne h
+
+theorem stepOp_present (hash : Bytes → Digest) (sz : Digest → Nat) (k : Disk) (op : Op) (d' : Digest)
+    (hd : Disciplined hash sz k op) (hp : DisciplinedP hash sz op) (h : Present hash sz k d') :
+    Present hash sz (stepOp hash true true k op).1 d' := by
+  have hres : ∀ name, ResolveDisc hash sz k name → Present hash sz (resolve hash k name).1 d' := by
+    intro name hrd
+    rcases resolve_blob_cases hash k name with h1 | ⟨want, data, hp1, hm, h1⟩
+    · rw [h1]; exact h
+    · rw [h1]
+      have := putCut_present hash sz k (hash data) d' ⟨[data], .eof⟩ _ (cut_full _) h
+      rw [hrd want data hp1 hm] at this
+      exact this
+  have hblob : ∀ k2 : Disk, k2.blob = k.blob → Present hash sz k2 d' := by
+    intro k2 he
+    obtain ⟨f, hf, r⟩ := h
+    exact ⟨f, by rw [he]; exact hf, r⟩
+  cases op with
+  | put d size s =>
+    simp only [Disciplined] at hd
+    subst hd
+    exact putCut_present hash sz k d d' s _ (cut_full _) h
+  | importB n s =>
+    simp only [stepOp, importB]
+    split
+    · next d es r heq =>
+      have hi : (importEffs hash n s).1 = some (d, es) := by rw [heq]
+      exact importCut_present hash sz k n s d d' es es hi (cut_full es) hp h
+    · exact h
+  | get d => exact h
+  | link name d => exact hblob _ (by simp only [stepOp]; rw [linkZ_blob_eq])
+  | linkR name d =>
+    by_cases hfire : linkRFires hash true true k name d = true
+    · simp only [stepOp, hfire, if_true]
+      obtain ⟨f, hf, r⟩ := hres name hd
+      exact ⟨f, by rw [linkZ_blob_eq]; exact hf, r⟩
+    · simp only [stepOp, hfire, Bool.false_eq_true, if_false]
+      exact hblob _ (by rw [linkZ_blob_eq])
+  | unlink name =>
+    apply hblob
+    simp only [stepOp, unlink]
+    split
+    · rfl
+    · split <;> rfl
+  | resolve name => exact hres name hd
+  | chunk d size a b cd s => cases hd
+  | putNeg d s => cases hp
+  | edit name data => exact hblob _ (by simp only [stepOp]; rw [edit_blob])
+
+/-- **A stored blob stays retrievable** along every `strong` history with crashes (disciplined operations, no
+    negative-size `Put`, no `Chunked`): once `Get(d)` reports `d` present with its size and right content — e.g. right
+    after a successful store, `put_ok_retrievable` — it does so after any number of further complete or crashed
+    operations on any digests and names, failing and crashing `Put`s of `d` itself included (a full-size file is never
+    reopened).  What the guards exclude is witnessed: `undisciplined_put_destroys_linked_blob`,
+    `F29_negative_size_put_destroys_blob`, `F10_chunk_holes_present_with_full_size`; concurrent faulty writers: F9. -/
+theorem crash_history_present_persists (hash : Bytes → Digest) (sz : Digest → Nat) (k k' : Disk)
+    (hr : CrashHist hash sz true k k') (d : Digest) (h0 : Present hash sz k d) : Present hash sz k' d := by
+  induction hr with
+  | refl => exact h0
+  | step k' k'' _ hs ih =>
+    cases hs with
+    | op o hd hp => exact stepOp_present hash sz k' o d hd (hp rfl) ih
+    | putCut d2 s p hc => exact putCut_present hash sz k' d2 d s p hc ih
+    | importCut n s d2 es p hi hc hsz => exact importCut_present hash sz k' n s d2 d es p hi hc (hsz rfl) ih
+    | resolveCut path data p _ hsz hc =>
+      have := putCut_present hash sz k' (hash data) d ⟨[data], .eof⟩ p (by rw [hsz]; exact hc) ih
+      exact this
+    | linkCut name d2 want q _ _ =>
+      obtain ⟨f, hf, r⟩ := ih
+      exact ⟨f, hf, r⟩
+
+/-- Non-vacuity of `CrashHist` (both strengths), `Disciplined`, `Present`: with the identity as hash and `sz = length`, a
+    Put of `[1,2,3,4]` killed after its first chunk (file `[1,2]`), then an Import of the same content killed before its
+    rename (file still `[1,2]`), then a complete Put that repairs it — ending `Present`, `Get` = 4 bytes. -/
+theorem crashHist_nonvacuous :
     let c : Bytes := [1, 2, 3, 4]
     let s : Script := ⟨[[1, 2], [3, 4]], .eof⟩
     let k1 := Disk.empty.setBlob c (run [.openCreate false, .pwrite 0 [1, 2]] none)
     let k2 := k1.setBlob c (run [] (k1.blob c))
     let k3 := (stepOp idh true true k2 (.put c 4 s)).1
-    (∀ b : Bytes, (fun d : Digest => d.length) (idh b) = b.length) ∧
-    CrashHist idh (fun d => d.length) Disk.empty k3 ∧ k1.blob c = some [1, 2] ∧ getB k3 c = .entry 4 := by
+    CrashHist idh (fun d => d.length) true Disk.empty k3 ∧ k1.blob c = some [1, 2] ∧ getB k3 c = .entry 4 ∧
+    Present idh (fun d => d.length) k3 c := by
   intro c s k1 k2 k3
   have hc1 : Cut (copyNamedEffs idh (Disk.empty.blob c) c ((fun d : Digest => d.length) c) s).1
       [.openCreate false, .pwrite 0 [1, 2]] := by
@@ -202,12 +361,39 @@ example :
         [.openCreate false, .pwrite 0 [1, 2], .pwrite 2 [3, 4], .close] := by decide
     rw [this]
     exact Cut.next _ _ _ (Cut.next _ _ _ (Cut.stop _))
-  have h1 : CrashStep idh (fun d => d.length) Disk.empty k1 :=
+  have h1 : CrashStep idh (fun d => d.length) true Disk.empty k1 :=
     CrashStep.putCut Disk.empty c s [.openCreate false, .pwrite 0 [1, 2]] hc1
-  have h2 : CrashStep idh (fun d => d.length) k1 k2 :=
+  have h2 : CrashStep idh (fun d => d.length) true k1 k2 :=
     CrashStep.importCut k1 4 ⟨[[1, 2, 3, 4]], .eof⟩ c [.replace [1, 2, 3, 4]] [] (by decide) (Cut.stop _)
-  have h3 : CrashStep idh (fun d => d.length) k2 k3 := CrashStep.op k2 (.put c 4 s) rfl
-  exact ⟨fun _ => rfl, .step _ _ _ (.step _ _ _ (.step _ _ _ (.refl _) h1) h2) h3, by decide, by decide⟩
+      (fun _ => by decide)
+  have h3 : CrashStep idh (fun d => d.length) true k2 k3 :=
+    CrashStep.op k2 (.put c 4 s) rfl (fun _ => trivial)
+  exact ⟨.step _ _ _ (.step _ _ _ (.step _ _ _ (.refl _) h1) h2) h3, by decide, by decide,
+    ⟨[1, 2, 3, 4], by decide, by decide, by decide, by decide⟩⟩
+
+/-- **What the size discipline excludes, 1** (review B.2): a crash left `[1,2]` under the digest of `[1,2,3,4]`; a caller
+    that now stores that digest under size 2 is answered `ok` from the same-size shortcut, and `Get` reports the blob
+    present with the size it was (just) stored under — content `[1,2]`, wrong. -/
+theorem size_lie_after_crash_present_wrong_content :
+    let c : Bytes := [1, 2, 3, 4]
+    let k1 := Disk.empty.setBlob c (run [.openCreate false, .pwrite 0 [1, 2]] none)
+    let r := put idh k1 c 2 ⟨[[9, 9]], .eof⟩
+    r.2 = .ok ∧ getB r.1 c = .entry 2 ∧ r.1.blob c = some [1, 2] ∧ ¬ Trusted idh (r.1.blob c) c 2 := by
+  refine ⟨by decide, by decide, by decide, ?_⟩
+  intro h
+  exact absurd (h [1, 2] (by decide) (by decide) (by decide)) (by decide)
+
+/-- **What the size discipline excludes, 2**: no crash — a stored AND linked blob, then a `Put` of the same digest under
+    another size from a short source: refused, and its `Truncate(0)` has destroyed the linked blob (`Get` = not exist)
+    while the name still resolves to it. -/
+theorem undisciplined_put_destroys_linked_blob :
+    let f : Bytes := [1, 2, 3]
+    let k1 := (put idh Disk.empty f 3 ⟨[f], .eof⟩).1
+    let k2 := (linkZ idh true true k1 nm f).1
+    let r := put idh k2 f 2 ⟨[[7]], .eof⟩
+    getB k2 f = .entry 3 ∧ r.2 = .short ∧ getB r.1 f = .res .notExist ∧
+    manGet r.1.mans [[0x68], [0x6e], [0x6d], [0x74]] = some f := by
+  decide
 
 /-! ## round 7: the read limit of `Resolve`, negative sizes, manifests written behind the cache's back -/
 
